@@ -776,6 +776,8 @@ CO_ERR COSdoInitUploadBlock(CO_SDO *srv)
     srv->Blk.LastValid = 0xFF;
     srv->Blk.Len       = srv->Blk.Size;
     srv->Blk.SegOk     = 0;
+    srv->Buf.Cur       = srv->Buf.Start;
+    srv->Buf.Num       = 0;
 
     if (size <= 4) {
         /* no action for basic type entry */
